@@ -174,7 +174,7 @@ func runC07(r *ev.Run, thorough bool) {
 	depth := 3
 	if thorough {
 		n = 4
-		depth = 4
+		depth = 5
 	}
 	var mu sync.Mutex
 	structured := int64(0)
@@ -259,7 +259,7 @@ func runC07(r *ev.Run, thorough bool) {
 func runC16(r *ev.Run, thorough bool) {
 	depth := 3
 	if thorough {
-		depth = 4
+		depth = 5
 	}
 	ops := []hOp{{opENC, 0}, {opENC, 1}, {opDEC, 0}, {opSCRIBBLE, 0}, {opRESET, 0}, {opMUT, 0}}
 	var scs []*hScenario
